@@ -1,9 +1,15 @@
 pub mod c01;
 pub mod c02;
+pub mod c03;
 pub mod c04;
 pub mod c06;
 pub mod c07;
+pub mod c10;
 pub mod c12;
+pub mod c13;
+pub mod c14;
+pub mod c15;
+pub mod c16;
 pub mod c17;
 pub mod c18;
 pub mod selftest;
@@ -14,10 +20,16 @@ pub fn run(ctx: &Ctx, out: &mut Out) -> bool {
     match ctx.prop.as_str() {
         "C01" => c01::run(ctx, out),
         "C02" => c02::run(ctx, out),
+        "C03" => c03::run(ctx, out),
         "C04" => c04::run(ctx, out),
         "C06" => c06::run(ctx, out),
         "C07" => c07::run(ctx, out),
+        "C10" => c10::run(ctx, out),
         "C12" => c12::run(ctx, out),
+        "C13" => c13::run(ctx, out),
+        "C14" => c14::run(ctx, out),
+        "C15" => c15::run(ctx, out),
+        "C16" => c16::run(ctx, out),
         "C17" => c17::run(ctx, out),
         "C18" => c18::run(ctx, out),
         "SELFTEST" => selftest::run(ctx, out),
